@@ -471,14 +471,14 @@ theorem evaluate_bsQueries_nodup (env : Env) (f : Flag) : (evaluate env f).bsQue
 
 /-! ### Cache consistency: a cached membership is what the provider answers -/
 
-def Consistent (env : Env) (st : St) : Prop :=
+def PConsistent (env : Env) (st : St) : Prop :=
   ∀ key m, st.cache.lookup key = some m → ∃ p, env.bs = some p ∧ m = (p.get key).membership
 
-theorem Consistent.empty (env : Env) : Consistent env {} := by
+theorem PConsistent.empty (env : Env) : PConsistent env {} := by
   intro key m h; cases h
 
-theorem Prim.consistent {env : Env} {a b : St} (hp : Prim env a b) (ha : Consistent env a) :
-    Consistent env b := by
+theorem Prim.pconsistent {env : Env} {a b : St} (hp : Prim env a b) (ha : PConsistent env a) :
+    PConsistent env b := by
   cases hp with
   | query key p hbs hnone =>
     intro k m hk
@@ -498,13 +498,13 @@ theorem Prim.consistent {env : Env} {a b : St} (hp : Prim env a b) (ha : Consist
       · cases hk
   | _ => exact ha
 
-theorem Reach.consistent {env : Env} {a b : St} (h : Reach env a b) (ha : Consistent env a) :
-    Consistent env b :=
-  Reach.invariant (I := Consistent env) (fun _ _ hp => hp.consistent) h ha
+theorem Reach.pconsistent {env : Env} {a b : St} (h : Reach env a b) (ha : PConsistent env a) :
+    PConsistent env b :=
+  Reach.invariant (I := PConsistent env) (fun _ _ hp => hp.pconsistent) h ha
 
-theorem evalFlag_consistent (sf n : Nat) (env : Env) (f : Flag) (chain : List String) {st : St}
-    (h : Consistent env st) : Consistent env (evalFlag sf n env f chain st).2 :=
-  (evalFlag_reach sf n env f chain st).consistent h
+theorem evalFlag_pconsistent (sf n : Nat) (env : Env) (f : Flag) (chain : List String) {st : St}
+    (h : PConsistent env st) : PConsistent env (evalFlag sf n env f chain st).2 :=
+  (evalFlag_reach sf n env f chain st).pconsistent h
 
 /-! ### No provider ⇒ no query -/
 
@@ -581,5 +581,5 @@ end LD
 
 #print axioms LD.evalFlag_reach
 #print axioms LD.evaluate_bsQueries_nodup
-#print axioms LD.Reach.consistent
+#print axioms LD.Reach.pconsistent
 #print axioms LD.reach_status_some
